@@ -1613,6 +1613,19 @@ class HasRounds(GenericHandler):
         # replace max_desired_rounds
         if max_desired_rounds is None:
             max_desired_rounds = cls.max_desired_rounds
+            if (
+                explicit_min_rounds
+                and max_desired_rounds
+                and max_desired_rounds < subcls.min_desired_rounds
+            ):
+                # inherited maximum lies below the new minimum: raise it, like an explicit
+                # maximum below an inherited minimum is raised below (else the window is empty,
+                # and every new hash would immediately need an update).
+                warn(
+                    f"{subcls.name}: max_desired_rounds ({max_desired_rounds!r}) below min_desired_rounds ({subcls.min_desired_rounds!r})",
+                    PasslibConfigWarning,
+                )
+                max_desired_rounds = subcls.max_desired_rounds = subcls.min_desired_rounds
         else:
             if isinstance(max_desired_rounds, str):
                 max_desired_rounds = int(max_desired_rounds)
